@@ -3,6 +3,12 @@
 // Every case draws a verifier configuration and a token vector, signs the literal payload with an honest key of the
 // harness, calls rp.VerifyIDToken / rp.VerifyTokens between two clock readings and judges the result with a reference
 // predicate written from the property statement (ref.go). Accepted tokens must return exactly the signed claims (cmp.go).
+//
+// Overlays on that space (streams of their own): the provider of a relying-party route may publish another issuer than the
+// configured one (the verifier, if one is handed out, is judged by the configured issuer); a registered member of the payload
+// may carry a value of the wrong JSON type, at a chosen position among the members (soundness is judged on the literal
+// payload, completeness is grey). Part C (keyset.go): histories over one verifier with remote keys - failed downloads,
+// rotation, cancelled callers - judged step by step with the same predicate.
 package main
 
 import (
@@ -11,6 +17,7 @@ import (
 	"encoding/json"
 	"errors"
 	"fmt"
+	"math/rand/v2"
 	"strings"
 	"sync"
 	"time"
@@ -115,8 +122,11 @@ func errClass(err error) string {
 var sampleDims = map[string]bool{"iss": true, "azp-missing": true, "exp": true, "iat-too-old": true, "auth_time-too-old": true, "at_hash": true, "alg": true, "nonce": true}
 
 const (
-	streamCase = 1
-	gridStride = 7919 // prime, coprime to the grid size (checked at start)
+	streamCase     = 1 // and streamCase+1 for the materialisation
+	streamProvider = 5
+	streamMistype  = 6
+	streamKeySet   = 7
+	gridStride     = 7919 // prime, coprime to the grid size (checked at start)
 )
 
 type caseOut struct {
@@ -180,56 +190,155 @@ func generate(run *ev.Run, i int, grid []gridCell) (*cfg, *vec, int) {
 		v = randomVec(r, c, alg)
 	}
 	v.Class = class
+	// overlays drawn from streams of their own (the vectors of the other dimensions stay what they were without them)
+	overlayProvider(run.CaseRand(streamProvider, i), c, v)
+	if class == "valid2" && v.Fold == "" {
+		overlayMistype(run.CaseRand(streamMistype, i), c, v)
+	}
 	return c, v, cell
+}
+
+// overlayProvider: on the relying-party routes one provider in six publishes another issuer than the one the relying party
+// is configured with (and one in four is discovered at a custom URL); the token then names the published or the configured
+// issuer.
+func overlayProvider(r *rand.Rand, c *cfg, v *vec) {
+	if c.Route == "" || c.Route == "direct" {
+		return
+	}
+	c.DiscURL = r.IntN(4) == 0
+	if r.IntN(6) != 0 {
+		return
+	}
+	c.Published = pick(r, issKinds[1:]...)
+	if r.IntN(2) == 0 {
+		c.Published = "slash-twin"
+	}
+	switch r.IntN(3) {
+	case 0:
+		v.Iss = "published"
+	case 1:
+		v.Iss = "equal"
+	}
+}
+
+// tokenCase is one materialised case: configuration, vector, literal payload and the signed token.
+type tokenCase struct {
+	c      *cfg
+	v      *vec
+	raw    []byte
+	p      map[string]any
+	token  string
+	access string
+	// scenario: "" for a single-token case, "remote-keys" for a step of a key-set history (part of the violation key of a
+	// refusal: the class of such a refusal is the history, not the token)
+	scenario string
+}
+
+// materialiseCase writes the literal payload of (c, v) relative to now and signs it with k (nil: the pool key of v.Alg).
+func materialiseCase(run *ev.Run, r *rand.Rand, c *cfg, v *vec, k *keys.Key) *tokenCase {
+	base := time.Now().Truncate(time.Second).Unix()
+	tc := &tokenCase{c: c, v: v}
+	tc.raw, tc.access = materialise(r, c, v, base)
+	if err := json.Unmarshal(tc.raw, &tc.p); err != nil {
+		run.HarnessBug("generated payload is not a JSON object: " + string(tc.raw))
+		return nil
+	}
+	switch {
+	case isHS(v.Alg):
+		tc.token = keys.HMACSign(v.Alg, hsKid, hsSecret, tc.raw)
+	case k != nil:
+		tc.token = keys.SignAs(k, k.Alg, k.Kid, tc.raw, v.Typ)
+	default:
+		k := signers[v.Alg]
+		tc.token = keys.SignAs(k, k.Alg, k.Kid, tc.raw, v.Typ)
+	}
+	return tc
+}
+
+// result is what one verification call gave, bracketed by two clock readings.
+type result struct {
+	claims oidc.Claims
+	isNil  bool
+	err    error
+	stage  string // "" or "rp-construction": the relying party refused to be built, err is the constructor's
+	pi     *mon.PanicInfo
+	t0, t1 time.Time
+}
+
+func call(tc *tokenCase, ctx context.Context, verifier *rp.IDTokenVerifier) (res result) {
+	res.isNil = true
+	res.t0 = time.Now()
+	res.pi = mon.Catch(func() {
+		switch tc.v.Entry {
+		case "VerifyIDToken[IDTokenClaims]":
+			var cl *oidc.IDTokenClaims
+			cl, res.err = rp.VerifyIDToken[*oidc.IDTokenClaims](ctx, tc.token, verifier)
+			res.claims, res.isNil = cl, cl == nil
+		case "VerifyIDToken[TokenClaims]":
+			var cl *oidc.TokenClaims
+			cl, res.err = rp.VerifyIDToken[*oidc.TokenClaims](ctx, tc.token, verifier)
+			res.claims, res.isNil = cl, cl == nil
+		default:
+			var cl *oidc.IDTokenClaims
+			cl, res.err = rp.VerifyTokens[*oidc.IDTokenClaims](ctx, tc.access, tc.token, verifier)
+			res.claims, res.isNil = cl, cl == nil
+		}
+	})
+	res.t1 = time.Now()
+	return res
 }
 
 func runCase(run *ev.Run, i int, grid []gridCell, verbose bool) int {
 	c, v, cell := generate(run, i, grid)
-	r := run.CaseRand(streamCase+1, i)
-	base := time.Now().Truncate(time.Second).Unix()
-	raw, access := materialise(r, c, v, base)
-	var p map[string]any
-	if err := json.Unmarshal(raw, &p); err != nil {
-		run.HarnessBug("generated payload is not a JSON object: " + string(raw))
+	tc := materialiseCase(run, run.CaseRand(streamCase+1, i), c, v, nil)
+	if tc == nil {
 		return cell
 	}
-	var token string
-	if isHS(v.Alg) {
-		token = keys.HMACSign(v.Alg, hsKid, hsSecret, raw)
-	} else {
-		k := signers[v.Alg]
-		token = keys.SignAs(k, k.Alg, k.Kid, raw, v.Typ)
-	}
-	verifier, ctx := c.build(keySet)
-	withAccess := v.Entry == "VerifyTokens[IDTokenClaims]"
-
-	var claims oidc.Claims
-	var err error
-	isNil := true
-	t0 := time.Now()
-	pi := mon.Catch(func() {
-		switch v.Entry {
-		case "VerifyIDToken[IDTokenClaims]":
-			var cl *oidc.IDTokenClaims
-			cl, err = rp.VerifyIDToken[*oidc.IDTokenClaims](ctx, token, verifier)
-			claims, isNil = cl, cl == nil
-		case "VerifyIDToken[TokenClaims]":
-			var cl *oidc.TokenClaims
-			cl, err = rp.VerifyIDToken[*oidc.TokenClaims](ctx, token, verifier)
-			claims, isNil = cl, cl == nil
-		default:
-			var cl *oidc.IDTokenClaims
-			cl, err = rp.VerifyTokens[*oidc.IDTokenClaims](ctx, access, token, verifier)
-			claims, isNil = cl, cl == nil
+	var res result
+	var verifier *rp.IDTokenVerifier
+	var ctx context.Context
+	var berr error
+	if pi := mon.Catch(func() { verifier, ctx, berr = c.build(keySet, nil) }); pi != nil {
+		t := time.Now()
+		res = result{isNil: true, pi: pi, t0: t, t1: t}
+	} else if berr != nil {
+		// the relying party refused its provider: no verifier, no claims for any token
+		if c.mismatchingProvider() {
+			run.Eval()
+			run.Count("relying_party_vs_provider_publishing_another_issuer", c.Published+" -> refused:"+errClass(berr))
+			run.Observed("provider-publishing-another-issuer")
+			run.Distinct(v.key(c))
+			if verbose {
+				fmt.Printf("REPLAY case %d: rp.NewRelyingPartyOIDC refused the provider: %v\n", i, berr)
+			}
+			return cell
 		}
-	})
-	t1 := time.Now()
+		t := time.Now()
+		res = result{isNil: true, err: berr, stage: "rp-construction", t0: t, t1: t}
+	} else {
+		if c.mismatchingProvider() {
+			run.Count("relying_party_vs_provider_publishing_another_issuer", c.Published+" -> built")
+			run.Observed("provider-publishing-another-issuer")
+		}
+		res = call(tc, ctx, verifier)
+	}
+	judge(run, int64(i), tc, res, nil, nil, verbose)
+	return cell
+}
+
+// judge decides one verification against the reference predicate. extraGrey: circumstances outside the token and the
+// configuration that make a refusal legitimate (completeness is then not demanded; soundness always is).
+func judge(run *ev.Run, idx int64, tc *tokenCase, res result, extraGrey []string, extraWitness map[string]any, verbose bool) (zone string, accepted bool) {
+	c, v, p, raw, token, access := tc.c, tc.v, tc.p, tc.raw, tc.token, tc.access
+	claims, isNil, err, pi, t0, t1 := res.claims, res.isNil, res.err, res.pi, res.t0, res.t1
+	withAccess := v.Entry == "VerifyTokens[IDTokenClaims]"
 	run.Eval()
 
 	ref0 := reference(c, p, v.Alg, withAccess, access, t0)
 	ref1 := reference(c, p, v.Alg, withAccess, access, t1)
 	ref, agree := combine(ref0, ref1)
-	zone := ref.zone()
+	ref.Grey = append(ref.Grey, extraGrey...)
+	zone = ref.zone()
 
 	witness := func(extra map[string]any) map[string]any {
 		w := map[string]any{
@@ -240,9 +349,15 @@ func runCase(run *ev.Run, i int, grid []gridCell, verbose bool) int {
 		}
 		if err != nil {
 			w["library_error"] = err.Error()
+			if res.stage != "" {
+				w["library_error_stage"] = res.stage
+			}
 		} else if !isNil {
 			b, _ := json.Marshal(claims)
 			w["library_claims"] = string(b)
+		}
+		for k, x := range extraWitness {
+			w[k] = x
 		}
 		for k, x := range extra {
 			w[k] = x
@@ -251,21 +366,24 @@ func runCase(run *ev.Run, i int, grid []gridCell, verbose bool) int {
 	}
 	if verbose {
 		b, _ := json.MarshalIndent(witness(nil), "", " ")
-		fmt.Printf("REPLAY case %d:\n%s\n", i, b)
+		fmt.Printf("REPLAY case %d:\n%s\n", idx, b)
 	}
 
 	if pi != nil {
 		if pi.InRepo {
-			run.Violation("C01:panic:"+pi.Site(), int64(i), "the verifier panicked: "+pi.Value, witness(map[string]any{"panic": pi.Value, "frame": pi.Frame}))
+			run.Violation("C01:panic:"+pi.Site(), idx, "the verifier panicked: "+pi.Value, witness(map[string]any{"panic": pi.Value, "frame": pi.Frame}))
 		} else {
 			run.HarnessBug("panic outside the library: " + pi.Value + " at " + pi.Frame)
 		}
-		return cell
+		return zone, false
 	}
-	accepted := err == nil
+	accepted = err == nil
 	outcome := "accepted"
 	if !accepted {
 		outcome = errClass(err)
+		if res.stage != "" {
+			outcome = res.stage + ":" + outcome
+		}
 		if !isNil {
 			run.Count("anomaly", "non-nil claims returned together with an error")
 		}
@@ -279,17 +397,26 @@ func runCase(run *ev.Run, i int, grid []gridCell, verbose bool) int {
 		// observation only (see report): exact claim hostile, case-variant twin conforming
 		run.Count("casefold_probe", v.Fold+":"+outcome)
 		run.SampleKind("casefold-probe", witness(nil))
-		return cell
+		return zone, accepted
 	}
 	if !agree {
 		run.Inconclusive("reference differs between t0 and t1 (boundary crossed during the call)")
-		return cell
+		return zone, accepted
 	}
-	run.Distinct(v.key(c))
+	run.Distinct(v.key(c) + strings.Join(extraGrey, ","))
 	run.Count("reference_zone", zone)
 	run.Count("cfg_offset", c.Offset.String())
 	run.Count("cfg_max_age_iat", c.MaxAgeIAT.String())
 	run.Count("cfg_max_age", c.MaxAge.String())
+	if v.Mis != nil {
+		how := "refused"
+		if accepted {
+			how = "accepted"
+		}
+		run.Count("mistyped_member", fmt.Sprintf("%s:%s -> %s / %s", v.Mis.Role, v.Mis.Member, zone, how))
+		run.Count("mistyped_position", v.Mis.Role+"@"+v.Mis.Pos)
+		run.Count("mistyped_value_kind", jsonKind(p[v.Mis.Member]))
+	}
 
 	switch zone {
 	case "must-reject":
@@ -301,12 +428,18 @@ func runCase(run *ev.Run, i int, grid []gridCell, verbose bool) int {
 		if sole {
 			run.Count("must_reject_sole_dimension", dim)
 			run.Observed("reject-decided-by:" + dim)
+			if c.mismatchingProvider() && dim == "iss" && v.Iss == "published" {
+				run.Observed("reject:token-naming-the-published-issuer")
+			}
+		}
+		if v.Mis != nil && len(ref.Reject) == 1 {
+			observeMistyped(run, tc, ref, dim)
 		}
 		if accepted {
 			// the class is named by the first failing condition in statement order
-			run.Violation("C01:accepted-must-reject:"+dim, int64(i),
+			run.Violation("C01:accepted-must-reject:"+dim, idx,
 				fmt.Sprintf("%s returned claims for a token that violates: %s", v.Entry, strings.Join(ref.Reject, ", ")), witness(nil))
-			return cell
+			return zone, accepted
 		}
 		if sole {
 			run.Count("error_when_sole_failing_condition_is", dim+" -> "+outcome)
@@ -318,15 +451,25 @@ func runCase(run *ev.Run, i int, grid []gridCell, verbose bool) int {
 		}
 	case "must-accept":
 		if !accepted {
-			run.Violation("C01:rejected-must-accept:"+outcome, int64(i),
+			class := outcome
+			if tc.scenario != "" {
+				class = tc.scenario + ":" + outcome
+			}
+			run.Violation("C01:rejected-must-accept:"+class, idx,
 				fmt.Sprintf("%s refused a correctly signed token that meets every condition with margin: %v", v.Entry, err), witness(nil))
-			return cell
+			return zone, accepted
 		}
 		run.Observed("accept:" + v.Alg)
 		run.Observed("accept:" + v.Entry)
 		run.Observed("accept:offset=" + c.Offset.String())
 		if v.Class == "grid" {
 			run.Observed("accept:grid")
+		}
+		if c.DiscURL {
+			run.Observed("accept:custom-discovery-url")
+		}
+		if c.mismatchingProvider() {
+			run.Observed("accept:token-naming-the-configured-issuer-not-the-published-one")
 		}
 		run.Count("must_accept_by_alg", v.Alg)
 	default:
@@ -342,15 +485,15 @@ func runCase(run *ev.Run, i int, grid []gridCell, verbose bool) int {
 	}
 	if accepted {
 		if isNil {
-			run.Violation("C01:claims-altered:nil", int64(i), v.Entry+" returned neither claims nor an error", witness(nil))
-			return cell
+			run.Violation("C01:claims-altered:nil", idx, v.Entry+" returned neither claims nor an error", witness(nil))
+			return zone, accepted
 		}
 		field, detail, n := compareClaims(claims, p, v.Alg, v.Entry != "VerifyIDToken[TokenClaims]")
 		run.CountN("claims_compare", "fields_compared", int64(n))
 		run.Count("claims_compare", "tokens_compared")
 		if field != "" {
-			run.Violation("C01:claims-altered:"+field, int64(i), "returned claims differ from the signed payload: "+detail, witness(map[string]any{"difference": detail}))
-			return cell
+			run.Violation("C01:claims-altered:"+field, idx, "returned claims differ from the signed payload: "+detail, witness(map[string]any{"difference": detail}))
+			return zone, accepted
 		}
 		if v.Extras == "custom" || v.Extras == "both" {
 			run.Observed("claims-compared-with-custom-claims")
@@ -359,19 +502,57 @@ func runCase(run *ev.Run, i int, grid []gridCell, verbose bool) int {
 			run.SampleKind("accepted-"+v.Entry, witness(nil))
 		}
 	}
-	return cell
+	return zone, accepted
+}
+
+// observeMistyped records which kinds of wrongly typed payloads reached the deciding step with exactly one failing
+// condition (dim) and nothing grey but the wrong type itself.
+func observeMistyped(run *ev.Run, tc *tokenCase, ref verdict, dim string) {
+	for _, g := range ref.Grey {
+		if !strings.HasPrefix(g, "mistyped:") {
+			return
+		}
+	}
+	m := tc.v.Mis
+	base := dim
+	for _, suf := range []string{"-missing", "-too-old", "-future"} {
+		base = strings.TrimSuffix(base, suf)
+	}
+	members := memberOfDim[base]
+	if m.Role == "self" && len(members) > 0 && members[0] == m.Member && !wellTyped(m.Member, tc.p[m.Member]) && tc.p[m.Member] != nil {
+		run.Observed("reject-decided-by-wrongly-typed:" + dim)
+		run.Count("wrongly_typed_deciding_member", dim+"="+jsonKind(tc.p[m.Member]))
+		return
+	}
+	if m.Role != "bystander" || len(members) == 0 {
+		return
+	}
+	if _, present := tc.p[m.Member]; !present || wellTyped(m.Member, tc.p[m.Member]) {
+		return
+	}
+	order := memberOrder(tc.raw)
+	if pm, ok := order[members[0]]; ok && order[m.Member] < pm {
+		run.Observed("reject-decided-by-member-after-wrongly-typed-bystander:" + dim)
+		run.Count("wrongly_typed_bystander_before_deciding_member", m.Member+"="+jsonKind(tc.p[m.Member]))
+		run.Count("deciding_member_after_wrongly_typed_bystander", dim)
+	}
 }
 
 func main() {
 	run := ev.Start("C01", "exploration")
-	run.SetRule("one case = (verifier configuration, token vector over iss/sub/aud/azp/exp/iat/auth_time/nonce/acr/at_hash/access token/alg/entry point), " +
+	run.SetRule("one case = (verifier configuration incl. how the verifier is obtained and what issuer the provider publishes, token vector over " +
+		"iss/sub/aud/azp/exp/iat/auth_time/nonce/acr/at_hash/access token/alg/entry point/wrongly typed member and its position), " +
 		"signed by the harness and verified by rp.VerifyIDToken / rp.VerifyTokens between two clock readings; a case is non-trivial when the reference " +
-		"gave the same zone at both readings; distinct = distinct (entry, alg, configuration kind, variant of every token dimension) vectors")
+		"gave the same zone at both readings; distinct = distinct (entry, alg, configuration kind, variant of every token dimension) vectors; " +
+		"part C: one evaluation = one step of a history over one verifier with remote keys (faulty downloads, rotation, cancelled callers)")
 	run.Assume(
 		"keys are honest and served by a trivial in-memory oidc.KeySet (signature trust is C02)",
 		"temporal zones: +-2 s grey band around every boundary; between now and now+offset both exp and iat are grey (the offset makes expiry stricter and iat laxer)",
 		"grey by decision (DESIGN 6a): iat absent or 0; azp/at_hash present as empty string; aud [c,c] without azp; ES256/PS256 under the default allow-list; at_hash of an empty access token; auth_time in the future",
 		"case-variant twins of registered claims (\"ISS\" next to \"iss\") are probed and histogrammed only, never judged",
+		"a registered member of the wrong JSON type (or null) makes completeness grey; soundness is judged on the literal payload: a present non-text azp / at_hash / nonce can not equal the required text",
+		"a relying party may refuse a provider that publishes another issuer than the configured one (counted); a verifier it hands out is judged by the configured issuer",
+		"remote keys: completeness of a step is demanded only if no download failed during it, the signing key was published, the caller's context was alive and no download was pending when it began (established by goroutine state)",
 	)
 	mand := []string{"claims-compared-with-custom-claims", "accept:grid", "reject:grid"}
 	for _, a := range allAlgs {
@@ -386,6 +567,11 @@ func main() {
 	for _, d := range []string{"iss", "sub", "aud", "azp", "azp-missing", "alg", "exp", "iat-future", "iat-too-old", "nonce", "acr", "auth_time-missing", "auth_time-too-old", "at_hash"} {
 		mand = append(mand, "reject-decided-by:"+d)
 	}
+	mand = append(mand, "provider-publishing-another-issuer", "accept:custom-discovery-url",
+		"reject-decided-by-wrongly-typed:azp", "reject-decided-by-wrongly-typed:at_hash", "reject-decided-by-wrongly-typed:nonce",
+		"reject-decided-by-member-after-wrongly-typed-bystander:azp", "reject-decided-by-member-after-wrongly-typed-bystander:at_hash",
+		"reject-decided-by-member-after-wrongly-typed-bystander:nonce")
+	mand = append(mand, ksMandatory...)
 	run.Mandatory(mand...)
 
 	initKeys()
@@ -395,7 +581,11 @@ func main() {
 	}
 	run.Extra("grid_size", len(grid))
 	if rc := run.ReplayCase(); rc >= 0 {
-		runCase(run, int(rc), grid, true)
+		if rc >= ksBase {
+			runHistory(run, int(rc-ksBase), true)
+		} else {
+			runCase(run, int(rc), grid, true)
+		}
 		for _, m := range mand {
 			run.Observed(m) // a single replayed case cannot observe the mandatory scenarios
 		}
@@ -424,5 +614,14 @@ func main() {
 		}
 	}
 	run.Extra("grid_cells_visited", nv)
+
+	// part C: key-set histories, one after the other (see keyset.go: the oracle looks at every goroutine of the process)
+	nh := run.N(400, 4000)
+	for h := 0; h < nh; h++ {
+		if pi := mon.Catch(func() { runHistory(run, h, false) }); pi != nil {
+			run.HarnessBug(fmt.Sprintf("key-set history %d: panic in the harness: %s at %s", h, pi.Value, pi.Frame))
+		}
+	}
+	run.Extra("keyset_histories", nh)
 	run.Finish()
 }
